@@ -180,7 +180,7 @@ def schema_change_response(vc):
              and subs[0][2][1] is fut and subs[0][2][2] is conn and subs[0][3] == {'target_type': 'KEYSPACE', 'keyspace': 'k'})
 
 
-@harness('C43', 'refresh_schema_and_set_result[error]', functions=['cassandra.cluster.refresh_schema_and_set_result'])
+@harness('C43', 'refresh_schema_and_set_result[error]', functions=['cassandra.cluster.refresh_schema_and_set_result'], native='contracts.native.c43:replay_error_path')
 def set_result_error(vc):
     """ensures when waiting for agreement fails with an exception the request is still completed exactly once, its flag is left as it
     was (not agreed) and a later refresh is scheduled"""
